@@ -23,6 +23,13 @@ type rawStmt struct {
 	col      int
 	callee   string
 	children string // variable holding the block passed as children, "" if none
+	recv     string // expr: the variable the expression is evaluated on (v, or a loop variable)
+	// control flow: kind "if" (cond "b": boolean oracle exprID; cond "c": switch tag oracle exprID selects caseK) with
+	// thn / els; kind "for" (oracle exprID gives the iteration count) with thn as body
+	cond  string
+	caseK int
+	thn   []rawStmt
+	els   []rawStmt
 }
 
 type rawTempl struct {
@@ -42,7 +49,12 @@ var (
 	reBlock  = regexp.MustCompile(`^(templ_7745c5c3_Var\d+) := templruntime\.GeneratedTemplate\(func\(templ_7745c5c3_Input templruntime\.GeneratedComponentInput\) \(templ_7745c5c3_Err error\) \{$`)
 	reLit    = regexp.MustCompile(`^templ_7745c5c3_Err = templruntime\.WriteString\(templ_7745c5c3_Buffer, \d+, (".*")\)$`)
 	reVar    = regexp.MustCompile(`^var (templ_7745c5c3_Var\d+) string$`)
-	reJoinS  = regexp.MustCompile(`^(templ_7745c5c3_Var\d+), templ_7745c5c3_Err = templ\.JoinStringErrs\(v\.S\((\d+)\)\)$`)
+	reJoinS  = regexp.MustCompile(`^(templ_7745c5c3_Var\d+), templ_7745c5c3_Err = templ\.JoinStringErrs\((\w+)\.S\((\d+)\)\)$`)
+	reIf     = regexp.MustCompile(`^if \w+\.B\((\d+)\) \{$`)
+	reElseIf = regexp.MustCompile(`^\} else if \w+\.B\((\d+)\) \{$`)
+	reFor    = regexp.MustCompile(`^for _, \w+ := range \w+\.L\((\d+)\) \{$`)
+	reSwitch = regexp.MustCompile(`^switch \w+\.W\((\d+)\) \{$`)
+	reCase   = regexp.MustCompile(`^case (\d+):$`)
 	reTErr   = regexp.MustCompile("^return templ\\.Error\\{Err: templ_7745c5c3_Err, FileName: `([^`]*)`, Line: (\\d+), Col: (\\d+)\\}$")
 	reWrite  = regexp.MustCompile(`^_, templ_7745c5c3_Err = templ_7745c5c3_Buffer\.WriteString\(templ\.EscapeString\((templ_7745c5c3_Var\d+)\)\)$`)
 	reCall   = regexp.MustCompile(`^templ_7745c5c3_Err = (.+)\.Render\(ctx, templ_7745c5c3_Buffer\)$`)
@@ -154,15 +166,90 @@ func (p *lineParser) closure(top bool) *rawTempl {
 		p.i++
 		p.expect("children default", []string{"if " + m[1] + " == nil {", m[1] + " = templ.NopComponent", "}", "ctx = templ.ClearChildren(ctx)"})
 	}
+	t.stmts = p.stmts()
+	if p.peek() == "return nil" {
+		p.i++
+		p.expect("closure end", []string{"})"})
+	} else {
+		p.dev("closure not terminated by `return nil`: found %q", p.peek())
+	}
+	return t
+}
+
+// ends reports whether l ends a statement list (not consumed by stmts).
+func ends(l string) bool {
+	return l == "return nil" || l == "}" || l == "default:" || l == "<eof>" || strings.HasPrefix(l, "} else") || reCase.MatchString(l)
+}
+
+// ifTail parses the rest of an if statement, its opening line already consumed.
+func (p *lineParser) ifTail(id int) rawStmt {
+	st := rawStmt{kind: "if", cond: "b", exprID: id}
+	st.thn = p.stmts()
+	l := p.peek()
+	switch {
+	case reElseIf.MatchString(l):
+		n, _ := strconv.Atoi(reElseIf.FindStringSubmatch(l)[1])
+		p.i++
+		st.els = []rawStmt{p.ifTail(n)}
+	case l == "} else {":
+		p.i++
+		st.els = p.stmts()
+		p.expect("end of else", []string{"}"})
+	default:
+		p.expect("end of if", []string{"}"})
+	}
+	return st
+}
+
+// stmts parses a statement list up to (not including) the line that ends it.
+func (p *lineParser) stmts() []rawStmt {
+	var out []rawStmt
 	for p.i < len(p.lines) {
 		l := p.lines[p.i]
 		switch {
-		case l == "return nil":
-			p.i++
-			p.expect("closure end", []string{"})"})
-			return t
+		case ends(l):
+			return out
 		case l == "ctx = templ.ClearChildren(ctx)" || l == "":
 			p.i++
+		case reIf.MatchString(l):
+			n, _ := strconv.Atoi(reIf.FindStringSubmatch(l)[1])
+			p.i++
+			out = append(out, p.ifTail(n))
+		case reFor.MatchString(l):
+			n, _ := strconv.Atoi(reFor.FindStringSubmatch(l)[1])
+			p.i++
+			body := p.stmts()
+			p.expect("end of for", []string{"}"})
+			out = append(out, rawStmt{kind: "for", exprID: n, thn: body})
+		case reSwitch.MatchString(l):
+			id, _ := strconv.Atoi(reSwitch.FindStringSubmatch(l)[1])
+			p.i++
+			type arm struct {
+				k    int
+				body []rawStmt
+			}
+			var arms []arm
+			var def []rawStmt
+			for p.i < len(p.lines) {
+				cl := p.lines[p.i]
+				if m := reCase.FindStringSubmatch(cl); m != nil {
+					k, _ := strconv.Atoi(m[1])
+					p.i++
+					arms = append(arms, arm{k, p.stmts()})
+				} else if cl == "default:" {
+					p.i++
+					def = p.stmts()
+				} else {
+					break
+				}
+			}
+			p.expect("end of switch", []string{"}"})
+			// Go takes the first case equal to the tag, else default: the same as an if-chain on the case oracle
+			chain := def
+			for i := len(arms) - 1; i >= 0; i-- {
+				chain = []rawStmt{{kind: "if", cond: "c", exprID: id, caseK: arms[i].k, thn: arms[i].body, els: chain}}
+			}
+			out = append(out, chain...)
 		case reLit.MatchString(l):
 			m := reLit.FindStringSubmatch(l)
 			s, err := strconv.Unquote(m[1])
@@ -171,13 +258,14 @@ func (p *lineParser) closure(top bool) *rawTempl {
 			}
 			p.i++
 			p.expect("error check after a literal write", handler)
-			t.stmts = append(t.stmts, rawStmt{kind: "lit", lit: s})
+			out = append(out, rawStmt{kind: "lit", lit: s})
 		case reVar.MatchString(l):
 			v := reVar.FindStringSubmatch(l)[1]
 			p.i++
 			st := rawStmt{kind: "expr"}
 			if m := reJoinS.FindStringSubmatch(p.peek()); m != nil && m[1] == v {
-				st.exprID, _ = strconv.Atoi(m[2])
+				st.recv = m[2]
+				st.exprID, _ = strconv.Atoi(m[3])
 				p.i++
 			} else {
 				p.dev("expression evaluation: found %q", p.peek())
@@ -202,7 +290,7 @@ func (p *lineParser) closure(top bool) *rawTempl {
 				p.dev("escaped expression write: found %q", p.peek())
 			}
 			p.expect("error check after an expression write", handler)
-			t.stmts = append(t.stmts, st)
+			out = append(out, st)
 		case reBlock.MatchString(l):
 			v := reBlock.FindStringSubmatch(l)[1]
 			p.i++
@@ -212,19 +300,18 @@ func (p *lineParser) closure(top bool) *rawTempl {
 			m := reCallCh.FindStringSubmatch(l)
 			p.i++
 			p.expect("error check after a component render", handler)
-			t.stmts = append(t.stmts, rawStmt{kind: "call", callee: m[1], children: m[2]})
+			out = append(out, rawStmt{kind: "call", callee: m[1], children: m[2]})
 		case reCall.MatchString(l):
 			m := reCall.FindStringSubmatch(l)
 			p.i++
 			p.expect("error check after a component render", handler)
-			t.stmts = append(t.stmts, rawStmt{kind: "call", callee: m[1]})
+			out = append(out, rawStmt{kind: "call", callee: m[1]})
 		default:
 			p.dev("unrecognised statement %q", l)
 			p.i++
 		}
 	}
-	p.dev("closure not terminated")
-	return t
+	return out
 }
 
 // instantiate builds the model program for one probe template, in execution order.
@@ -237,7 +324,7 @@ type inst struct {
 
 var (
 	reTemplCall = regexp.MustCompile(`^(\w+)\(v\)$`)
-	reComp      = regexp.MustCompile(`^v\.C\((\d+)\)$`)
+	reComp      = regexp.MustCompile(`^\w+\.C\((\d+)\)$`)
 	reOnce      = regexp.MustCompile(`^v\.H\((\d+)\)\.Once\(\)$`)
 	reRaw       = regexp.MustCompile(`^templ\.Raw\((".*")\)$`)
 	reJoin      = regexp.MustCompile(`^templ\.Join\((.*)\)$`)
@@ -249,7 +336,7 @@ func (in *inst) template(name string, children *run.Node) *run.Node {
 		in.errs = append(in.errs, "no template "+name)
 		return &run.Node{K: "nop"}
 	}
-	return &run.Node{K: "templ", Guard: t.guard, Kids: in.stmts(t, t.childrenVar, children)}
+	return &run.Node{K: "templ", Guard: t.guard, Kids: in.stmts(t.stmts, t.childrenVar, children)}
 }
 
 func (in *inst) block(v string, chVar string, children *run.Node) *run.Node {
@@ -258,13 +345,18 @@ func (in *inst) block(v string, chVar string, children *run.Node) *run.Node {
 		in.errs = append(in.errs, "no block "+v)
 		return &run.Node{K: "nop"}
 	}
-	return &run.Node{K: "templ", Guard: b.guard, Kids: in.stmts(b, chVar, children)}
+	return &run.Node{K: "templ", Guard: b.guard, Kids: in.stmts(b.stmts, chVar, children)}
 }
 
-func (in *inst) stmts(t *rawTempl, chVar string, children *run.Node) []*run.Node {
+func (in *inst) stmts(ss []rawStmt, chVar string, children *run.Node) []*run.Node {
 	var out []*run.Node
-	for _, s := range t.stmts {
+	for _, s := range ss {
 		switch s.kind {
+		case "if":
+			out = append(out, &run.Node{K: "if", Cond: s.cond, ID: s.exprID, Case: s.caseK,
+				Kids: in.stmts(s.thn, chVar, children), Else: in.stmts(s.els, chVar, children)})
+		case "for":
+			out = append(out, &run.Node{K: "for", ID: s.exprID, Kids: in.stmts(s.thn, chVar, children)})
 		case "lit":
 			out = append(out, &run.Node{K: "lit", B: []byte(s.lit)})
 		case "expr":
